@@ -35,6 +35,15 @@ def parse_num(tok):
     return None
 
 
+def same_atom(t, u):
+    """same kind and same value (1.0 and 1.00 are the same float; 1 and 1.0 are different atoms)"""
+    if t == u:
+        return True
+    if t[0] != u[0] or t[0] not in "if":
+        return False
+    return parse_num(t) == parse_num(u)
+
+
 def probes_around(toks):
     """atoms around the operands of a SimplifyBounds case, for the search of a failing input"""
     out = []
@@ -99,6 +108,9 @@ def property_failures(cs, probes, ie, ipairs, bits):
             if acc != want:
                 fails.append({"expr": cs, "atom": a, "via": how, "impl": got,
                               "spec": "atom satisfies every conjunct" if want else "atom violates a conjunct"})
+            elif acc and not same_atom(got[1:], a):
+                fails.append({"expr": cs, "atom": a, "via": how, "impl": got,
+                              "spec": "the result of a successful unification is that atom"})
         if want and ie == "B":
             fails.append({"expr": cs, "atom": a, "via": "expr", "impl": "bottom", "spec": "satisfiable (this atom satisfies every conjunct)"})
     return fails
@@ -284,6 +296,7 @@ def run(ctx):
     lap("vm_compute_cross_check")
 
     malformed = 0
+    fixed_instances = 0
     evaluations = 0
     nontrivial = 0
     distinct = set()
@@ -342,6 +355,11 @@ def run(ctx):
                                             "proved theorems (extraction or driver broken): " + c[:400])
                 known += 1
                 ctx.known_finding(FINDING)
+            continue
+        if not safe and not fails:
+            # outside all_safe the Impl model is known to deviate from the Spec (C03-F1).  An implementation
+            # that agrees with the Spec there (e.g. after a fix of C03-F1) does not violate the property.
+            fixed_instances += 1
             continue
         mismatches += 1
         if fails:
@@ -415,6 +433,7 @@ def run(ctx):
         "mismatches": mismatches,
         "spec_deviations_predicted_by_impl_model": known,
         "malformed_stream_cases": malformed,
+        "unsafe_cases_where_impl_equals_spec_not_model": fixed_instances,
         "vm_compute_cross_checked_cases": vm_checked,
         "harness_build_s": hsecs,
         "phase_seconds": phase,
